@@ -14,7 +14,7 @@ from simkit.core import EventLog, Outcome, Violation, stream_rng, stable_hash
 
 ID = "C09"
 LEVEL = "exploration"
-TIERS = {"quick": {"runs": 16000, "wall": 150}, "thorough": {"runs": 800000, "wall": 1500}}
+TIERS = {"quick": {"runs": 32000, "wall": 150}, "thorough": {"runs": 800000, "wall": 1500}}
 RULE = ("start state = empty / dict-initialised / parsed-from-text / parsed-from-lines "
         "paragraph over a key alphabet of 6 names x case variants; trace = seeded history "
         "(<= 60 steps, <= 4 live handles) of set / get / del / pop / setdefault / clear / in / "
